@@ -859,6 +859,10 @@ class Frame:
         it = self.eval(st.iter)
         self.loop_counter += 1
         spec = self.eng.loop_specs.get((self.qualname, self.loop_counter))
+        from . import lazyseq
+        lz = lazyseq.stateful_of(self.eng, it)
+        if lz is not None:
+            return self.iterator_for(st, lz, spec)
         seq = npmodel.iterate(self.eng, it, allow_symbolic=spec is not None)
         if isinstance(seq, npmodel.SymbolicRange):
             return self.symbolic_for(st, seq, spec)
@@ -914,8 +918,90 @@ class Frame:
         eng.assume(T.zb(spec.invariant(self, n)))
         self.exec_block(st.orelse)
 
+    def havoc_for_spec(self, spec, mods):
+        for name in mods:
+            if self.env.has(name) or name in self.env.vars:
+                try:
+                    old = self.load_name(name)
+                except Unsupported:
+                    old = None
+            else:
+                old = None
+            newv = spec.havoc(self, name, old) if spec.havoc else default_havoc(name, old)
+            if newv is not None:
+                self.env.vars[name] = newv
+
+    def iterator_for(self, st, it, spec):
+        """for-loop over a stateful iterator (generator, zip of generators, ...).  Without a loop contract the iterator is pulled item by item
+        (every pull is a branch); with one, the cut-point rule is applied at the loop head: invariant on entry, arbitrary state satisfying
+        the invariant, one pull; exhausted -> code after the loop, otherwise body and invariant again."""
+        eng = self.eng
+        if spec is None:
+            count = 0
+            while True:
+                ok, v = it.try_next(eng)
+                if not ok:
+                    break
+                count += 1
+                if count > 64:
+                    raise Unsupported("loop over a lazy iterator unrolled more than 64 times (needs a loop contract)")
+                self.assign(st.target, v)
+                try:
+                    self.exec_block(st.body)
+                except _Break:
+                    return
+                except _Continue:
+                    continue
+            self.exec_block(st.orelse)
+            return
+        lname = f"{self.qualname}/loop{self.loop_counter}:{spec.name}"
+        eng.oblige(f"{lname}/inv-init", T.zb(spec.invariant(self, 0)), kind="inv-init")
+        mods = spec.modifies if spec.modifies is not None else sorted(assigned_names(st.body) | assigned_names([st.target]))
+        k = T.fresh("k", "int")
+        self.havoc_for_spec(spec, mods)
+        eng.assume(T.compare("ge", k, 0))
+        eng.assume(T.zb(spec.invariant(self, k)))
+        ok, v = it.try_next(eng)
+        if not ok:
+            self.exec_block(st.orelse)
+            return
+        self.assign(st.target, v)
+        try:
+            self.exec_block(st.body)
+        except _Continue:
+            pass
+        except _Break:
+            return
+        eng.oblige(f"{lname}/inv-step", T.zb(spec.invariant(self, T.add(k, 1))), kind="inv-step")
+        raise PathEnd("inv-step")
+
+    def while_with_spec(self, st, spec):
+        eng = self.eng
+        lname = f"{self.qualname}/loop{self.loop_counter}:{spec.name}"
+        eng.oblige(f"{lname}/inv-init", T.zb(spec.invariant(self, 0)), kind="inv-init")
+        mods = spec.modifies if spec.modifies is not None else sorted(assigned_names(st.body))
+        k = T.fresh("k", "int")
+        self.havoc_for_spec(spec, mods)
+        eng.assume(T.compare("ge", k, 0))
+        eng.assume(T.zb(spec.invariant(self, k)))
+        c = self.truth(self.eval(st.test))
+        if not self.eng.branch(c):
+            self.exec_block(st.orelse)
+            return
+        try:
+            self.exec_block(st.body)
+        except _Continue:
+            pass
+        except _Break:
+            return
+        eng.oblige(f"{lname}/inv-step", T.zb(spec.invariant(self, T.add(k, 1))), kind="inv-step")
+        raise PathEnd("inv-step")
+
     def s_While(self, st):
         self.loop_counter += 1
+        spec = self.eng.loop_specs.get((self.qualname, self.loop_counter))
+        if spec is not None:
+            return self.while_with_spec(st, spec)
         count = 0
         while True:
             c = self.truth(self.eval(st.test))
@@ -1238,6 +1324,42 @@ class Frame:
         return out
 
     def e_GeneratorExp(self, node):
+        from . import lazyseq
+        gens = node.generators
+        if len(gens) == 1 and not gens[0].ifs and not gens[0].is_async:
+            src = self.eval(gens[0].iter)     # Python evaluates the outermost iterable when the generator object is created
+            lz = src if lazyseq.is_lazy(src) else None
+            if lz is not None:
+                it = lazyseq.stateful_of(self.eng, lz)
+                if not isinstance(it, lazyseq.LazyIter):
+                    raise Unsupported("generator expression over a composite lazy iterator")
+                base, p0 = it.seq, it.pos
+                saved_env = self.env
+                fr = self
+
+                def item(k, base=base, p0=p0):
+                    env = Env(saved_env)
+                    old = fr.env
+                    fr.env = env
+                    try:
+                        fr.assign(gens[0].target, base.item(T.add(p0, k)))
+                        return fr.eval(node.elt)
+                    finally:
+                        fr.env = old
+                out = lazyseq.LazyIter(lazyseq.LazySeq(it.remaining(), item, kind="genexpr"))
+                it.claim(out)
+                return out
+            out = []
+            saved = self.env
+            self.env = Env(saved)
+            try:
+                from . import npmodel
+                for v in npmodel.iterate(self.eng, src):
+                    self.assign(gens[0].target, v)
+                    out.append(self.eval(node.elt))
+            finally:
+                self.env = saved
+            return GeneratorValue(out)
         return GeneratorValue(self.e_ListComp(node))
 
     def e_SetComp(self, node):
